@@ -109,7 +109,7 @@ theorem project_noDup : ∀ (s : Schema), WF s → ∀ v v', project s v = some 
   | obj fields keep ih =>
     intro hwf v v' h
     cases hwf with
-    | obj hsub hok hd =>
+    | obj hsub hok hd _ =>
       cases v with
       | null | bool _ | int _ | float | str _ | arr _ => simp [project] at h
       | obj o =>
